@@ -84,6 +84,12 @@ fn main() {
             }
             ctx.finish()
         }
+        "single" => {
+            // one call in a fresh process (canonical reference for the history-independence clause)
+            let c: PtCase = serde_json::from_str(&args[2]).expect("case json");
+            println!("RESULT {}", serde_json::to_string(&c.run()).unwrap());
+            0
+        }
         "replay" => {
             let text = std::fs::read_to_string(&args[2]).unwrap_or_else(|e| {
                 eprintln!("cannot read {}: {}", args[2], e);
